@@ -5,6 +5,17 @@ from lib.common import Report, run_tlc, tlc_ok, run_jobs
 
 PROP = "C01"
 
+META = {
+    "level": "model_checking",
+    "text": "The integer fragment of is/2 is specified exactly in TLA+ (BigInt/ArithInt, sanity-checked by TLC against native "
+            "arithmetic and algebraic identities). TLC enumerates every (operator, x, y) over a boundary set straddling the "
+            "2^31/2^55/2^56/2^62/2^63/2^64/2^70 representation boundaries in both signs, shift counts up to 2^64 and exponents; "
+            "every case is replayed against the real machine in three evaluation contexts. Bounded-exhaustive conformance, not proof.",
+    "note": "Trusted: TLC, BigInt.tla (validated in the same run; results cross-checked against Python integers), the canonical "
+            "text renderer and the LeafAnswer projection of the harness. Operands are bounded by 2^128; larger bignums exercise dashu only.",
+    "technique": "TLA+ value-level specification (BigInt) enumerated by TLC; vectors replayed into the real evaluator",
+}
+
 
 def pyval(op, x, y):
     """independent cross-check of the TLA+ oracle with Python integers (sanity of layer A; a mismatch is a tool error)"""
